@@ -35,6 +35,9 @@ static size_t arena_top[MON_MAXT];
 #define ARENA_SZ (8u << 20)
 static uintptr_t img_lo, img_hi, self_lo, self_hi;
 static int active = 0;
+#define WSET_SZ 65536
+static uintptr_t wset[WSET_SZ]; int mon_wset_grew = 0; long mon_wset_size = 0;
+void mon_wset_reset(void) { memset(wset, 0, sizeof wset); mon_wset_grew = 0; mon_wset_size = 0; }
 
 static int cur_tid(void) { return my_tid < 0 ? 0 : my_tid; }
 static void *arena_alloc(size_t n)
@@ -122,10 +125,11 @@ static inline void on_access(void *addr, int size, int is_write)
     else for (int t = 0; t < m->nthreads; t++) if (t != me && a - (uintptr_t)arena_base[t] < ARENA_SZ) { kind = 2; owner = t; break; }
     if (!kind) return;                                                  /* stack, read-only data, harness heap */
     m->foreign++;
-    /* record (deduplicated by address) and detect conflicts: same location, different threads, at least one write */
+    /* record (deduplicated by address, open addressing) and detect conflicts: same location, different threads, at least one write */
     int slot = -1;
-    for (int i = 0; i < m->nshared; i++) if (m->sh_addr[i] == a) { slot = i; break; }
-    if (slot < 0 && m->nshared < MON_MAXS) { slot = m->nshared++; m->sh_addr[slot] = a; m->sh_readers[slot] = 0; m->sh_writers[slot] = 0; m->sh_kind[slot] = (unsigned char)kind; }
+    { unsigned h = (unsigned)((a * 0x9E3779B97F4A7C15ull) >> 40) & (MON_MAXS - 1);
+      for (int probe = 0; probe < 64; probe++) { unsigned q = (h + probe) & (MON_MAXS - 1); if (m->sh_addr[q] == a) { slot = (int)q; break; } if (m->sh_addr[q] == 0) { slot = (int)q; m->sh_addr[q] = a; m->sh_readers[q] = 0; m->sh_writers[q] = 0; m->sh_kind[q] = (unsigned char)kind; m->nshared++; break; } }
+      if (slot < 0) m->sh_overflow = 1; }
     if (slot >= 0) {
         unsigned bit = 1u << me;
         unsigned others_w = m->sh_writers[slot] & ~bit, others_r = m->sh_readers[slot] & ~bit;
@@ -133,6 +137,17 @@ static inline void on_access(void *addr, int size, int is_write)
             if (!m->conflict) { m->conflict = 1; m->conflict_addr = a; m->conflict_kind = kind; m->conflict_write = is_write; m->conflict_tid = me; }
         }
         if (is_write) m->sh_writers[slot] |= bit; else m->sh_readers[slot] |= bit;
+    }
+    /* partial-order reduction: only accesses to granules that somebody writes are scheduling points */
+    {
+        uintptr_t g0 = a >> 3, g1 = (a + (size > 0 ? (uintptr_t)size - 1 : 0)) >> 3; if (g1 - g0 > 512) g1 = g0 + 512;
+        int hit = 0;
+        for (uintptr_t g = g0; g <= g1; g++) {
+            unsigned h = (unsigned)((g * 0x9E3779B97F4A7C15ull) >> 40) & (WSET_SZ - 1); int found = 0;
+            for (int probe = 0; probe < 64; probe++) { unsigned q = (h + probe) & (WSET_SZ - 1); if (wset[q] == g) { found = 1; break; } if (wset[q] == 0) { if (is_write) { wset[q] = g; mon_wset_grew = 1; mon_wset_size++; found = 1; } break; } }
+            if (found) hit = 1;
+        }
+        if (!is_write && !hit) return;
     }
     mon.cur_kind = is_write ? 4 : 3;
     pick_and_switch(0);
